@@ -145,6 +145,19 @@ def task_surface(job) -> dict:
         proto = getattr(cm, "APIClientProtocol", None)
         if proto is not None:
             res["api_client_protocol"] = {n: True for n, v in vars(proto).items() if isinstance(v, property)}
+        # reachability: APIClient can be constructed and every tag property yields an instance of a tag client class
+        reach: dict = {}
+        try:
+            cfgm = importlib.import_module(job.get("core", pkg + ".core") + ".config")
+            inst = api(cfgm.ClientConfig(base_url="http://example.invalid"))
+            for n in res["api_client"]:
+                try:
+                    reach[n] = type(getattr(inst, n)).__name__
+                except BaseException as e2:
+                    reach[n] = ("ERROR " + type(e2).__name__ + ": " + str(e2))[:200]
+        except BaseException as e2:
+            reach["<construct>"] = ("ERROR " + type(e2).__name__ + ": " + str(e2))[:240]
+        res["api_client_reach"] = reach
     except BaseException as e:
         res["errors"].append({"where": "client", **err(e)})
     try:
